@@ -51,6 +51,7 @@ type DepParams struct {
 
 type builtDepBlock struct {
 	coinbasePays bool // pos != 0 and the block's coinbase pays the deposit script too
+	twinOut      bool // version 0: output outIdx+1 of the deposit transaction is a second deposit (EVM seed + 1)
 	copyOf       *builtDepBlock
 	spec         DepBlock
 	height       uint64
@@ -117,6 +118,9 @@ func buildDepBlockReusing(spec DepBlock, keys []KeySpec, magic []byte, reuse *bu
 			outs = append(outs, pad(i))
 		}
 		outs = append(outs, wire.NewTxOut(int64(spec.Value), world.DepositScriptV0(b.key, b.evm)))
+		// a second deposit output of the same transaction (another EVM address), right behind the first
+		outs = append(outs, wire.NewTxOut(int64(spec.Value), world.DepositScriptV0(b.key, evmOf(spec.EvmSeed+1))))
+		b.twinOut = true
 		for i := 0; i < spec.Pad%3; i++ {
 			outs = append(outs, pad(10+i))
 		}
@@ -169,6 +173,14 @@ func (b *builtDepBlock) coinbaseDeposit() *bitcointypes.Deposit {
 		NoWitnessTx: b.blk.Raw[0], OutputIndex: b.outIdx, IntermediateProof: b.blk.Tree.Path(0),
 		EvmAddress: b.evm, RelayerPubkey: b.key.Public(),
 	}
+}
+
+// twinDeposit is the Deposit record for the second deposit output of the same transaction.
+func (b *builtDepBlock) twinDeposit() *bitcointypes.Deposit {
+	d := b.deposit()
+	d.OutputIndex = b.outIdx + 1
+	d.EvmAddress = evmOf(b.spec.EvmSeed + 1)
+	return d
 }
 
 func (b *builtDepBlock) header() *bitcointypes.BlockHeader {
@@ -314,12 +326,13 @@ const (
 	mutDupMirror     // the same deposit twice in one batch, the second under the mirror position of a duplicated last leaf
 	mutDupOtherBlock // the same transaction from two voted blocks in one batch
 	mutCoinbaseLater // the block's immature coinbase (paying the same script) as a later item of the batch
+	mutTwinBadProof  // the transaction's second deposit output, with a damaged proof or an alias position, after the first was verified
 	numDepMuts
 )
 
 var depMutNames = []string{"none", "header-other-height", "header-bitflip", "header-missing", "tx-byteflip", "tx-trailing-byte", "outidx-shift",
 	"version-swap", "evm-changed", "key-swap", "proof-truncated", "proof-extended", "proof-swapped", "proof-bitflip", "pos-neighbour", "pos-alias",
-	"pos-random", "dup-in-batch", "header-duplicated", "block-number-other", "dup-mirror-position", "dup-other-block", "immature-coinbase-later-in-batch"}
+	"pos-random", "dup-in-batch", "header-duplicated", "block-number-other", "dup-mirror-position", "dup-other-block", "immature-coinbase-later-in-batch", "second-output-with-bad-proof"}
 
 type verdict int
 
@@ -488,6 +501,22 @@ func (f *depFixture) buildAttempt(st DepStep) (*bitcointypes.MsgNewDeposits, *bu
 		if b.coinbasePays && b.spec.Depth < 100 {
 			msg.Deposits = append(msg.Deposits, b.coinbaseDeposit())
 			reject("immature-coinbase")
+		}
+	case mutTwinBadProof:
+		// every output needs its own valid inclusion proof, also when another output of the same transaction has just
+		// been credited
+		if b.twinOut && depth >= 1 {
+			d2 := b.twinDeposit()
+			if arg%2 == 0 {
+				p := append([]byte{}, d2.IntermediateProof...)
+				bit := arg % (len(p) * 8)
+				p[bit/8] ^= 1 << uint(bit%8)
+				d2.IntermediateProof = p
+			} else if depth < 31 {
+				d2.TxIndex = uint32(b.pos) + uint32(1+arg%5)<<uint(depth)
+			}
+			msg.Deposits = append(msg.Deposits, d2)
+			reject("second-output-with-bad-proof")
 		}
 	case mutBlockNumberOther:
 		if other != b {
